@@ -2,6 +2,7 @@ package sess
 
 import (
 	"fmt"
+	"strconv"
 	"testing"
 
 	"pgregory.net/rapid"
@@ -19,6 +20,8 @@ type C16Case struct {
 	Type         string `json:"type"`  // MsgType of the invalid message
 	CounterFails bool   `json:"counter_fails,omitempty"`
 	ReadsFail    bool   `json:"reads_fail,omitempty"`
+	GoodCopy     bool   `json:"good_copy,omitempty"` // the damaged numeric field is followed, further on, by a well-formed field of the same tag
+	NegativeSeq  bool   `json:"negative_seq,omitempty"`
 	Damage       string `json:"damage"`                // checksum | bodylength | field | seqtext | seqtext+checksum | noseq+checksum | noseq+bodylength | state
 	BadStep      int    `json:"badstep"`               // index of the invalid message in Steps
 	ResendStep   int    `json:"resend_step,omitempty"` // index of a later ResendRequest 1..0 (0: none)
@@ -122,6 +125,10 @@ func genC16(t *rapid.T) *C16Case {
 				m.Fields = append(m.Fields, rig.F("384", rapid.SampledFrom([]string{"x", "1x", "two"}).Draw(t, "badCount")))
 			} else {
 				m.Fields[1] = rig.F(rig.TagHeartBtInt, "3O")
+				if rapid.IntRange(0, 2).Draw(t, "goodIntervalBehind") == 0 {
+					m.Fields = append(m.Fields, rig.F(rig.TagHeartBtInt, itoa(g.cfg.HBMin)))
+					c.GoodCopy = true
+				}
 			}
 		default:
 			switch rapid.IntRange(0, 3).Draw(t, "whichField") {
@@ -139,7 +146,13 @@ func genC16(t *rapid.T) *C16Case {
 			}
 		}
 	case "seqtext":
+		good := m.Seq
 		m.Seq = rapid.SampledFrom([]string{"abc", "1x", "", " 7"}).Draw(t, "seqText")
+		if rapid.IntRange(0, 2).Draw(t, "goodCopyBehind") == 0 {
+			// the field occurs a second time further on, well-formed: the first occurrence is the field
+			m.Fields = append(m.Fields, rig.F(rig.TagMsgSeqNum, good))
+			c.GoodCopy = true
+		}
 	case "seqtext+checksum":
 		m.Seq = rapid.SampledFrom([]string{"abc", "1x", ""}).Draw(t, "seqText")
 		m.Damage, m.DamageBy = "checksum", by
@@ -157,6 +170,11 @@ func genC16(t *rapid.T) *C16Case {
 		} else {
 			m.Fields = append(m.Fields, rapid.SampledFrom([]rig.Tok{rig.F("134", "77"), rig.F("58", "REF34=77"), rig.F("5034", "1")}).Draw(t, "lookalikeBody"))
 		}
+	}
+	if _, err := strconv.Atoi(m.Seq); err == nil && !m.NoSeq && loggedOn && rapid.IntRange(0, 7).Draw(t, "negativeSeq") == 0 {
+		// a MsgSeqNum below zero is a number all the same: the Reject quotes it
+		m.Seq = "-" + m.Seq
+		c.NegativeSeq = true
 	}
 	m.Note = c.Damage
 	c.BadStep = len(c.Steps)
@@ -264,6 +282,12 @@ func checkC16(c *C16Case, rec *evid.Rec) (vs []pbt.Violation) {
 	}
 	if c.ReadsFail {
 		rec.Hist("counter-store-unreadable-when-the-invalid-message-arrives")
+	}
+	if c.NegativeSeq {
+		rec.Hist("invalid-message-numbered-below-zero")
+	}
+	if c.GoodCopy {
+		rec.Hist("damaged-field-with-a-good-copy-behind-it")
 	}
 	rec.Hist("role:" + c.Cfg.Role)
 	if rec.WantSample() {
